@@ -1,6 +1,969 @@
-//! C28 — not implemented yet.
+//! C28 — Each CTE reference yields that CTE's rows.
+//!
+//! Generator (own, focused; choice tape): 1–3 small tables; a statement with a
+//! WITH clause of 1–3 CTEs (simple / filtered / joined / UNION ALL / COUNT(*)
+//! bodies, later CTEs referencing earlier ones, sometimes named like a base
+//! table, sometimes with a column list) whose body references the CTEs 1–3
+//! times: joins (comma, INNER, LEFT, CROSS), self-joins of one CTE, UNION [ALL]
+//! branches, `t.*`, and CTE references inside EXISTS / IN / scalar COUNT
+//! subqueries in WHERE or in the SELECT list. Nested WITH clauses occur in
+//! derived tables, CTE bodies, parenthesised set-operation branches and
+//! subquery expressions; an inner WITH prefers to REUSE a name visible from
+//! the enclosing scope, usually with a different body and column set.
+//! All references are valid by construction against the *lexical* catalog.
+//!
+//! Oracles:
+//!  1. `refsql` (lexical scoping: nearest enclosing definition wins);
+//!  2. metamorphic: the statement with every CTE reference textually replaced
+//!     by its definition as a derived table (no WITH left) must give the same
+//!     rows — both statements through the engine. The harness first checks that
+//!     the reference itself gives both texts the same answer.
+//! An engine error (on either text) is an allowed outcome.
 use super::Property;
+use crate::data::*;
+use crate::engine::run_sql;
+use crate::refsql::Db;
+use crate::runner::*;
+use crate::sqlast::*;
+use crate::sqlcheck::{fmt_tables, mem_context};
+use crate::sqlgen::*;
+use proptest::prelude::*;
+use std::collections::HashMap;
+
+#[path = "c24_util.rs"]
+mod util;
+use util::*;
+
+// ---------------------------------------------------------------------------
+// generator
+// ---------------------------------------------------------------------------
+
+#[derive(Clone, Debug)]
+struct RelInfo {
+    name: String,
+    cols: Vec<(String, ColType)>,
+    cte: bool,
+    /// base relations joined once the relation is inlined
+    flat: usize,
+}
+
+#[derive(Clone, Debug)]
+struct SCol {
+    rel: String,
+    name: String,
+    ty: ColType,
+}
+fn cx(c: &SCol) -> Expr {
+    Expr::qcol(&c.rel, &c.name)
+}
+
+struct G {
+    t: Tape,
+    feats: Vec<&'static str>,
+    seq: usize,
+    max_depth: u32,
+}
+
+fn visible(cat: &[RelInfo]) -> Vec<RelInfo> {
+    let mut out: Vec<RelInfo> = vec![];
+    for r in cat.iter().rev() {
+        if !out.iter().any(|x| x.name.eq_ignore_ascii_case(&r.name)) {
+            out.push(r.clone());
+        }
+    }
+    out.reverse();
+    out
+}
+
+impl G {
+    fn feat(&mut self, f: &'static str) {
+        if !self.feats.contains(&f) {
+            self.feats.push(f);
+        }
+    }
+    fn fresh(&mut self, p: &str) -> String {
+        self.seq += 1;
+        format!("{}{}", p, self.seq)
+    }
+    fn lit(&mut self, ty: ColType) -> Expr {
+        Expr::Lit(match ty {
+            ColType::Int | ColType::Int32 => Value::Int(self.t.pick(5) as i64),
+            ColType::Double => Value::Double((self.t.pick(9) as i64 - 4) as f64 * 0.25 + 0.0),
+            ColType::Str => Value::Str(["a", "", "ab", "b"][self.t.pick(4)].to_string()),
+            ColType::Date => Value::Date(10957 + self.t.pick(4) as i32 * 15),
+            ColType::Bool => Value::Bool(self.t.pick(2) == 1),
+        })
+    }
+
+    fn pick_rel(&mut self, cat: &[RelInfo], cte_pct: u32) -> RelInfo {
+        let vis = visible(cat);
+        let ctes: Vec<&RelInfo> = vis.iter().filter(|r| r.cte).collect();
+        if !ctes.is_empty() && self.t.chance(cte_pct) {
+            // most recent definitions first (0 → the nearest one)
+            let i = self.t.pick(ctes.len());
+            return ctes[ctes.len() - 1 - i].clone();
+        }
+        let i = self.t.pick(vis.len());
+        vis[i].clone()
+    }
+
+    fn equi(&mut self, l: &[SCol], r: &[SCol]) -> Option<Expr> {
+        let mut pairs = vec![];
+        for a in l {
+            for b in r {
+                if a.ty == b.ty && a.ty != ColType::Double && a.ty != ColType::Bool {
+                    pairs.push((a, b));
+                }
+            }
+        }
+        if pairs.is_empty() {
+            return None;
+        }
+        let i = self.t.pick(pairs.len());
+        Some(Expr::eq(cx(pairs[i].0), cx(pairs[i].1)))
+    }
+
+    fn simple_pred(&mut self, scope: &[SCol]) -> Expr {
+        let c = scope[self.t.pick(scope.len())].clone();
+        match self.t.pick(5) {
+            0 => Expr::IsNull { e: Box::new(cx(&c)), neg: true },
+            1 if c.ty != ColType::Bool => Expr::bin(cx(&c), BinOp::Le, self.lit(c.ty)),
+            2 if c.ty != ColType::Bool => Expr::bin(cx(&c), BinOp::Ne, self.lit(c.ty)),
+            3 if c.ty != ColType::Bool => Expr::bin(cx(&c), BinOp::Gt, self.lit(c.ty)),
+            _ => Expr::eq(cx(&c), self.lit(c.ty)),
+        }
+    }
+
+    /// WITH list; pushes the definitions onto `cat`.
+    fn cte_list(&mut self, cat: &mut Vec<RelInfo>, depth: u32) -> Vec<Cte> {
+        let n = 1 + self.t.pick(3);
+        let mut out: Vec<Cte> = vec![];
+        let outer_ctes: Vec<String> = visible(cat).iter().filter(|r| r.cte).map(|r| r.name.clone()).collect();
+        let bases: Vec<String> = cat.iter().filter(|r| !r.cte).map(|r| r.name.clone()).collect();
+        for _ in 0..n {
+            let mut name = if depth > 0 && !outer_ctes.is_empty() && self.t.chance(65) {
+                self.feat("name_reused_in_inner_scope");
+                outer_ctes[self.t.pick(outer_ctes.len())].clone()
+            } else if self.t.chance(8) {
+                self.feat("cte_named_like_base_table");
+                bases[self.t.pick(bases.len())].clone()
+            } else {
+                self.fresh("w")
+            };
+            if out.iter().any(|c| c.name == name) {
+                name = self.fresh("w");
+            }
+            let nested = depth + 1 <= self.max_depth && self.t.chance(12);
+            if nested {
+                self.feat("with_in_cte_body");
+            }
+            let (q, mut cols, flat) = self.query(cat, depth + 1, nested, None);
+            let col_list = if self.t.chance(3) {
+                self.feat("cte_column_list");
+                let names: Vec<String> = cols.iter().map(|_| self.fresh("k")).collect();
+                for (c, n) in cols.iter_mut().zip(&names) {
+                    c.0 = n.clone();
+                }
+                Some(names)
+            } else {
+                None
+            };
+            cat.push(RelInfo { name: name.clone(), cols, cte: true, flat });
+            out.push(Cte { name, cols: col_list, q });
+        }
+        out
+    }
+
+    /// (query, output columns, flat relation count)
+    fn query(&mut self, cat: &[RelInfo], depth: u32, with: bool, want: Option<&[ColType]>) -> (Query, Vec<(String, ColType)>, usize) {
+        let mut cat: Vec<RelInfo> = cat.to_vec();
+        let with_list = if with { self.cte_list(&mut cat, depth) } else { vec![] };
+        let k = self.t.pick(10);
+        let (body, out, flat) = if k >= 8 && (depth == 0 || with) {
+            // UNION [ALL] of two or three selects
+            let (s1, out, f1) = self.select(&cat, depth, want);
+            let types: Vec<ColType> = out.iter().map(|(_, t)| *t).collect();
+            let mut body = SetExpr::Select(Box::new(s1));
+            let mut flat = f1;
+            let n = 1 + self.t.pick(2);
+            for _ in 0..n {
+                let all = self.t.chance(70);
+                self.feat(if all { "union_all" } else { "union" });
+                let r = if depth < self.max_depth && self.t.chance(25) {
+                    // parenthesised branch with its own WITH
+                    self.feat("with_in_setop_branch");
+                    let (q, _, f) = self.query(&cat, depth + 1, true, Some(&types));
+                    flat = flat.max(f);
+                    SetExpr::Nested(Box::new(q))
+                } else {
+                    let (s, _, f) = self.select(&cat, depth, Some(&types));
+                    flat = flat.max(f);
+                    SetExpr::Select(Box::new(s))
+                };
+                body = SetExpr::Op { op: SetOp::Union, all, l: Box::new(body), r: Box::new(r) };
+            }
+            (body, out, flat)
+        } else {
+            let (s, out, f) = self.select(&cat, depth, want);
+            (SetExpr::Select(Box::new(s)), out, f)
+        };
+        let mut q = Query::of(body);
+        q.with = with_list;
+        (q, out, flat)
+    }
+
+    fn from_item(&mut self, cat: &[RelInfo], depth: u32) -> (From, Vec<SCol>, usize) {
+        if depth < self.max_depth && self.t.chance(12) {
+            self.feat("with_in_derived_table");
+            let (q, out, flat) = self.query(cat, depth + 1, true, None);
+            let alias = self.fresh("d");
+            let cols = out.iter().map(|(n, t)| SCol { rel: alias.clone(), name: n.clone(), ty: *t }).collect();
+            return (From::Derived { q: Box::new(q), alias, cols: None }, cols, flat);
+        }
+        let r = self.pick_rel(cat, 75);
+        let alias = self.fresh("t");
+        let cols = r.cols.iter().map(|(n, t)| SCol { rel: alias.clone(), name: n.clone(), ty: *t }).collect();
+        (From::Table { name: r.name.clone(), alias: Some(alias) }, cols, r.flat)
+    }
+
+    /// EXISTS / IN / scalar-COUNT predicate over (preferably) a CTE
+    fn subquery_pred(&mut self, cat: &[RelInfo], scope: &[SCol], depth: u32) -> Expr {
+        let nested = depth < self.max_depth && self.t.chance(20);
+        let mut cat2: Vec<RelInfo> = cat.to_vec();
+        let with = if nested {
+            self.feat("with_in_subquery");
+            self.cte_list(&mut cat2, depth + 1)
+        } else {
+            vec![]
+        };
+        let r = self.pick_rel(&cat2, 85);
+        let alias = self.fresh("x");
+        let inner: Vec<SCol> = r.cols.iter().map(|(n, t)| SCol { rel: alias.clone(), name: n.clone(), ty: *t }).collect();
+        let from = vec![From::Table { name: r.name.clone(), alias: Some(alias) }];
+        let mut conds = vec![];
+        if self.t.chance(25) {
+            if let Some(e) = self.equi(&inner, scope) {
+                self.feat("correlated");
+                conds.push(e);
+            }
+        }
+        if self.t.chance(30) {
+            conds.push(self.simple_pred(&inner));
+        }
+        let where_ = conds.into_iter().reduce(Expr::and);
+        let mk = |sel: Select, with: Vec<Cte>| {
+            let mut q = Query::select(sel);
+            q.with = with;
+            Box::new(q)
+        };
+        match self.t.pick(3) {
+            0 => {
+                self.feat("exists");
+                let sel = Select::simple(vec![Item::Expr(Expr::int(1), None)], from, where_);
+                Expr::Exists { q: mk(sel, with), neg: self.t.chance(40) }
+            }
+            1 => {
+                // pick an inner column and an outer column of the same type
+                let mut pairs = vec![];
+                for a in scope {
+                    for b in &inner {
+                        if a.ty == b.ty && a.ty != ColType::Double && a.ty != ColType::Bool {
+                            pairs.push((a.clone(), b.clone()));
+                        }
+                    }
+                }
+                if pairs.is_empty() {
+                    self.feat("exists");
+                    let sel = Select::simple(vec![Item::Expr(Expr::int(1), None)], from, where_);
+                    return Expr::Exists { q: mk(sel, with), neg: false };
+                }
+                let (a, b) = pairs[self.t.pick(pairs.len())].clone();
+                let neg = self.t.chance(30);
+                self.feat(if neg { "not_in_subquery" } else { "in_subquery" });
+                let sel = Select::simple(vec![Item::Expr(cx(&b), None)], from, where_);
+                Expr::InSub { e: Box::new(cx(&a)), q: mk(sel, with), neg }
+            }
+            _ => {
+                self.feat("scalar_subquery");
+                let sel = Select::simple(vec![Item::Expr(Expr::count_star(), None)], from, where_);
+                let op = [BinOp::Ge, BinOp::Eq, BinOp::Lt][self.t.pick(3)];
+                Expr::bin(Expr::Scalar(mk(sel, with)), op, Expr::int(self.t.pick(3) as i64))
+            }
+        }
+    }
+
+    fn select(&mut self, cat: &[RelInfo], depth: u32, want: Option<&[ColType]>) -> (Select, Vec<(String, ColType)>, usize) {
+        let nfrom = match self.t.pick(10) {
+            0..=3 => 1,
+            4..=8 => 2,
+            _ => 3,
+        };
+        let (mut cur, mut scope, mut flat) = self.from_item(cat, depth);
+        let mut comma: Vec<From> = vec![];
+        let mut conds: Vec<Expr> = vec![];
+        let mut names_used: Vec<String> = vec![];
+        if let From::Table { name, .. } = &cur {
+            names_used.push(name.clone());
+        }
+        for _ in 1..nfrom {
+            // keep most blocks at <= 2 flattened relations (open finding join-3way)
+            let (f, cols, fl) = self.from_item(cat, depth);
+            if flat + fl > 2 && !self.t.chance(12) {
+                break;
+            }
+            if let From::Table { name, .. } = &f {
+                if names_used.contains(name) {
+                    self.feat("same_relation_twice_in_from");
+                }
+                names_used.push(name.clone());
+            }
+            flat += fl;
+            let eq = self.equi(&scope, &cols);
+            match (self.t.pick(5), eq) {
+                (0, Some(e)) => {
+                    self.feat("join_comma");
+                    conds.push(e);
+                    comma.push(std::mem::replace(&mut cur, f));
+                }
+                (1, Some(e)) | (4, Some(e)) => {
+                    self.feat("join_inner");
+                    cur = From::Join { l: Box::new(cur), r: Box::new(f), kind: JoinKind::Inner, on: Some(e) };
+                }
+                (2, Some(e)) => {
+                    self.feat("join_left");
+                    cur = From::Join { l: Box::new(cur), r: Box::new(f), kind: JoinKind::Left, on: Some(e) };
+                }
+                _ => {
+                    self.feat("join_cross");
+                    cur = From::Join { l: Box::new(cur), r: Box::new(f), kind: JoinKind::Cross, on: None };
+                }
+            }
+            scope.extend(cols);
+        }
+        comma.push(cur);
+        if self.t.chance(35) {
+            self.feat("where");
+            conds.push(self.simple_pred(&scope));
+        }
+        if self.t.chance(12) {
+            conds.push(self.subquery_pred(cat, &scope, depth));
+        }
+        let where_ = conds.into_iter().reduce(Expr::and);
+
+        let mut items = vec![];
+        let mut out = vec![];
+        match want {
+            Some(types) => {
+                for ty in types {
+                    let cands: Vec<SCol> = scope.iter().filter(|c| c.ty == *ty).cloned().collect();
+                    let e = if !cands.is_empty() && !self.t.chance(10) { cx(&cands[self.t.pick(cands.len())]) } else { self.lit(*ty) };
+                    let a = self.fresh("c");
+                    items.push(Item::Expr(e, Some(a.clone())));
+                    out.push((a, *ty));
+                }
+            }
+            None => {
+                let k = self.t.pick(12);
+                if k == 11 {
+                    self.feat("count_star");
+                    let a = self.fresh("c");
+                    items.push(Item::Expr(Expr::count_star(), Some(a.clone())));
+                    out.push((a, ColType::Int));
+                } else if k == 10 && comma.len() == 1 && matches!(comma[0], From::Table { .. } | From::Derived { .. }) {
+                    self.feat("qualified_star");
+                    let rel = scope[0].rel.clone();
+                    items.push(Item::QStar(rel));
+                    for c in &scope {
+                        out.push((c.name.clone(), c.ty));
+                    }
+                } else {
+                    let n = 1 + self.t.pick(3);
+                    for _ in 0..n {
+                        let c = scope[self.t.pick(scope.len())].clone();
+                        let a = self.fresh("c");
+                        items.push(Item::Expr(cx(&c), Some(a.clone())));
+                        out.push((a, c.ty));
+                    }
+                    if self.t.chance(8) {
+                        // scalar COUNT subquery over a CTE in the SELECT list
+                        self.feat("scalar_subquery_in_select_list");
+                        let r = self.pick_rel(cat, 90);
+                        let alias = self.fresh("x");
+                        let inner: Vec<SCol> = r.cols.iter().map(|(n, t)| SCol { rel: alias.clone(), name: n.clone(), ty: *t }).collect();
+                        let w = if self.t.chance(50) {
+                            let e = self.equi(&inner, &scope);
+                            if e.is_some() {
+                                self.feat("correlated");
+                            }
+                            e
+                        } else {
+                            None
+                        };
+                        let sel = Select::simple(vec![Item::Expr(Expr::count_star(), None)], vec![From::Table { name: r.name.clone(), alias: Some(alias) }], w);
+                        let a = self.fresh("c");
+                        items.push(Item::Expr(Expr::Scalar(Box::new(Query::select(sel))), Some(a.clone())));
+                        out.push((a, ColType::Int));
+                    }
+                }
+            }
+        }
+        let distinct = want.is_none() && self.t.chance(10);
+        if distinct {
+            self.feat("distinct");
+        }
+        (Select { distinct, items, from: comma, where_, group: Group::None, having: None }, out, flat)
+    }
+}
+
+fn build(tables: Vec<Table>, tape: Vec<u16>, cuts: Vec<Vec<usize>>, max_depth: u32) -> SqlCase {
+    let cat: Vec<RelInfo> = tables
+        .iter()
+        .map(|t| RelInfo { name: t.name.clone(), cols: t.cols.iter().map(|c| (c.name.clone(), c.ty)).collect(), cte: false, flat: 1 })
+        .collect();
+    let mut g = G { t: Tape::new(tape), feats: vec![], seq: 0, max_depth };
+    let (query, _, _) = g.query(&cat, 0, true, None);
+    let features = g.feats.iter().map(|s| s.to_string()).collect();
+    SqlCase { cuts: cuts.into_iter().take(tables.len()).collect(), tables, query, features }
+}
+
+pub fn strategy(tier: Tier) -> BoxedStrategy<SqlCase> {
+    let mut tp = TableProfile::default();
+    tp.max_rows = tier.pick(7, 20);
+    tp.max_cols = 3;
+    tp.types = vec![ColType::Int, ColType::Int, ColType::Int, ColType::Str, ColType::Date, ColType::Double];
+    tp.null_pcts = vec![0, 0, 20, 40];
+    let max_rows = tp.max_rows;
+    let max_depth = 2;
+    (
+        tables_strategy(tp),
+        proptest::collection::vec(any::<u16>(), 0..320),
+        proptest::collection::vec(proptest::collection::vec(0..=max_rows, 0..3), 3),
+    )
+        .prop_map(move |(tables, tape, cuts)| build(tables, tape, cuts, max_depth))
+        .boxed()
+}
+
+// ---------------------------------------------------------------------------
+// scope analysis of a statement (lexical resolution vs one statement-global map)
+// ---------------------------------------------------------------------------
+
+#[derive(Default, Debug)]
+pub struct ScopeFacts {
+    /// some WITH name is defined by two WITH clauses of the statement
+    pub name_defined_twice: bool,
+    /// some CTE definition is referenced at least twice
+    pub referenced_twice: bool,
+    /// some table reference resolves differently under "one map for the whole
+    /// statement, filled in binding order, never popped" than under lexical scoping
+    pub global_map_misresolves: bool,
+    /// two definitions of one name are BOTH referenced (a by-name cache conflates them)
+    pub same_name_two_live_definitions: bool,
+    /// some query block references `alias.col` where another item of the same FROM
+    /// clause exposes a column of that name too, and at least one of the two
+    /// items is a derived table or a CTE reference
+    pub join_inputs_share_column_name: bool,
+    pub cte_refs: usize,
+}
+
+struct Walk<'a> {
+    tables: &'a [Table],
+    /// output column names of every definition id
+    def_cols: Vec<Vec<String>>,
+    clash: bool,
+    lex: Vec<(String, usize)>,
+    glob: HashMap<String, usize>,
+    next: usize,
+    refs: HashMap<usize, usize>,
+    def_names: Vec<String>,
+    mis: bool,
+}
+
+impl<'a> Walk<'a> {
+    /// (is base table, column names) of a FROM leaf, lexically resolved
+    fn leaf_cols(&self, f: &From) -> Vec<(String, bool, Vec<String>)> {
+        match f {
+            From::Table { name, alias } => {
+                let n = name.to_lowercase();
+                let a = alias.clone().unwrap_or_else(|| name.clone());
+                match self.lex.iter().rev().find(|(x, _)| *x == n) {
+                    Some((_, id)) => vec![(a, false, self.def_cols[*id].clone())],
+                    None => {
+                        let cols = self.tables.iter().find(|t| t.name.eq_ignore_ascii_case(name)).map(|t| t.cols.iter().map(|c| c.name.to_lowercase()).collect()).unwrap_or_default();
+                        vec![(a, true, cols)]
+                    }
+                }
+            }
+            From::Derived { q, alias, cols } => {
+                let names = match cols {
+                    Some(c) => c.iter().map(|x| x.to_lowercase()).collect(),
+                    None => self.out_names(q),
+                };
+                vec![(alias.clone(), false, names)]
+            }
+            From::Join { l, r, .. } => {
+                let mut v = self.leaf_cols(l);
+                v.extend(self.leaf_cols(r));
+                v
+            }
+        }
+    }
+    /// output column names of a query, evaluated in the CURRENT lexical scope
+    /// (nested WITH clauses of `q` itself are handled by a sub-walk)
+    fn out_names(&self, q: &Query) -> Vec<String> {
+        let mut sub = Walk { tables: self.tables, def_cols: self.def_cols.clone(), clash: false, lex: self.lex.clone(), glob: HashMap::new(), next: self.next, refs: HashMap::new(), def_names: vec![], mis: false };
+        // register q's own WITH definitions (ids continue after the existing ones)
+        sub.next = sub.def_cols.len();
+        for c in &q.with {
+            let names = match &c.cols {
+                Some(cl) => cl.iter().map(|x| x.to_lowercase()).collect(),
+                None => sub.out_names(&c.q),
+            };
+            let id = sub.def_cols.len();
+            sub.def_cols.push(names);
+            sub.lex.push((c.name.to_lowercase(), id));
+        }
+        fn leftmost(s: &SetExpr) -> Option<&SetExpr> {
+            match s {
+                SetExpr::Op { l, .. } => leftmost(l),
+                o => Some(o),
+            }
+        }
+        match leftmost(&q.body) {
+            Some(SetExpr::Select(sel)) => {
+                let leaves: Vec<(String, bool, Vec<String>)> = sel.from.iter().flat_map(|f| sub.leaf_cols(f)).collect();
+                let mut out = vec![];
+                for it in &sel.items {
+                    match it {
+                        Item::Expr(_, Some(a)) => out.push(a.to_lowercase()),
+                        Item::Expr(Expr::Col { name, .. }, None) => out.push(name.to_lowercase()),
+                        Item::Expr(e, None) => out.push(e.sql().to_lowercase()),
+                        Item::Star => {
+                            for (_, _, c) in &leaves {
+                                out.extend(c.iter().cloned());
+                            }
+                        }
+                        Item::QStar(r) => {
+                            for (a, _, c) in &leaves {
+                                if a.eq_ignore_ascii_case(r) {
+                                    out.extend(c.iter().cloned());
+                                }
+                            }
+                        }
+                    }
+                }
+                out
+            }
+            Some(SetExpr::Nested(inner)) => sub.out_names(inner),
+            _ => vec![],
+        }
+    }
+
+    fn query(&mut self, q: &Query) {
+        let mark = self.lex.len();
+        for c in &q.with {
+            self.query(&c.q);
+            let names = match &c.cols {
+                Some(cl) => cl.iter().map(|x| x.to_lowercase()).collect(),
+                None => self.out_names(&c.q),
+            };
+            let id = self.next;
+            self.next += 1;
+            debug_assert_eq!(id, self.def_cols.len());
+            self.def_cols.push(names);
+            let n = c.name.to_lowercase();
+            self.def_names.push(n.clone());
+            self.lex.push((n.clone(), id));
+            self.glob.insert(n, id);
+        }
+        self.set(&q.body);
+        for k in &q.order_by {
+            self.expr(&k.e);
+        }
+        self.lex.truncate(mark);
+    }
+    fn set(&mut self, s: &SetExpr) {
+        match s {
+            SetExpr::Select(sel) => {
+                let leaves: Vec<(String, bool, Vec<String>)> = sel.from.iter().flat_map(|f| self.leaf_cols(f)).collect();
+                // qualified column references of this block (also from inside its
+                // subquery expressions: correlated references)
+                let mut refs: Vec<(String, String)> = vec![];
+                {
+                    let mut note = |e: &Expr| {
+                        if let Expr::Col { rel: Some(r), name } = e {
+                            refs.push((r.to_lowercase(), name.to_lowercase()));
+                        }
+                    };
+                    let mut top = |e: &Expr| {
+                        e.walk(&mut |x| {
+                            note(x);
+                            match x {
+                                Expr::Exists { q, .. } | Expr::Scalar(q) | Expr::InSub { q, .. } => crate::kf_sql::walk_query_exprs(q, &mut |y| note(y)),
+                                _ => {}
+                            }
+                        });
+                    };
+                    for it in &sel.items {
+                        if let Item::Expr(e, _) = it {
+                            top(e);
+                        }
+                    }
+                    for e in sel.where_.iter().chain(sel.having.iter()) {
+                        top(e);
+                    }
+                    fn ons<'x>(f: &'x From, out: &mut Vec<&'x Expr>) {
+                        if let From::Join { l, r, on, .. } = f {
+                            ons(l, out);
+                            ons(r, out);
+                            if let Some(e) = on {
+                                out.push(e);
+                            }
+                        }
+                    }
+                    let mut on_exprs = vec![];
+                    for f in &sel.from {
+                        ons(f, &mut on_exprs);
+                    }
+                    for e in on_exprs {
+                        top(e);
+                    }
+                }
+                for (rel, name) in &refs {
+                    if let Some(me) = leaves.iter().position(|l| l.0.to_lowercase() == *rel && l.2.contains(name)) {
+                        for (j, other) in leaves.iter().enumerate() {
+                            if j != me && other.2.contains(name) && (!other.1 || !leaves[me].1) {
+                                self.clash = true;
+                            }
+                        }
+                    }
+                }
+                for f in &sel.from {
+                    self.from(f);
+                }
+                if let Some(w) = &sel.where_ {
+                    self.expr(w);
+                }
+                for it in &sel.items {
+                    if let Item::Expr(e, _) = it {
+                        self.expr(e);
+                    }
+                }
+                if let Some(h) = &sel.having {
+                    self.expr(h);
+                }
+            }
+            SetExpr::Op { l, r, .. } => {
+                self.set(l);
+                self.set(r);
+            }
+            SetExpr::Nested(q) => self.query(q),
+            SetExpr::Values(_) => {}
+        }
+    }
+    fn from(&mut self, f: &From) {
+        match f {
+            From::Table { name, .. } => {
+                let n = name.to_lowercase();
+                let lexical = self.lex.iter().rev().find(|(x, _)| *x == n).map(|(_, id)| *id);
+                let global = self.glob.get(&n).copied();
+                if lexical != global {
+                    self.mis = true;
+                }
+                if let Some(id) = lexical {
+                    *self.refs.entry(id).or_insert(0) += 1;
+                }
+            }
+            From::Derived { q, .. } => self.query(q),
+            From::Join { l, r, on, .. } => {
+                self.from(l);
+                self.from(r);
+                if let Some(e) = on {
+                    self.expr(e);
+                }
+            }
+        }
+    }
+    fn expr(&mut self, e: &Expr) {
+        let mut subs: Vec<&Query> = vec![];
+        e.walk(&mut |x| match x {
+            Expr::Exists { q, .. } | Expr::Scalar(q) | Expr::InSub { q, .. } => subs.push(q),
+            _ => {}
+        });
+        for q in subs {
+            self.query(q);
+        }
+    }
+}
+
+pub fn scope_facts(q: &Query, tables: &[Table]) -> ScopeFacts {
+    let mut w = Walk { tables, def_cols: vec![], clash: false, lex: vec![], glob: HashMap::new(), next: 0, refs: HashMap::new(), def_names: vec![], mis: false };
+    w.query(q);
+    let mut f = ScopeFacts::default();
+    f.join_inputs_share_column_name = w.clash;
+    f.global_map_misresolves = w.mis;
+    f.cte_refs = w.refs.values().sum();
+    f.referenced_twice = w.refs.values().any(|n| *n >= 2);
+    for (i, n) in w.def_names.iter().enumerate() {
+        for (j, m) in w.def_names.iter().enumerate() {
+            if i < j && n == m {
+                f.name_defined_twice = true;
+                if w.refs.get(&i).copied().unwrap_or(0) > 0 && w.refs.get(&j).copied().unwrap_or(0) > 0 {
+                    f.same_name_two_live_definitions = true;
+                }
+            }
+        }
+    }
+    f
+}
+
+// ---------------------------------------------------------------------------
+// textual inlining: every CTE reference becomes a derived table
+// ---------------------------------------------------------------------------
+
+type Env = Vec<(String, Query, Option<Vec<String>>)>;
+
+fn inline_expr(e: &Expr, env: &Env) -> Expr {
+    let b = |x: &Expr| Box::new(inline_expr(x, env));
+    let v = |xs: &[Expr]| xs.iter().map(|x| inline_expr(x, env)).collect::<Vec<_>>();
+    match e {
+        Expr::Col { .. } | Expr::Lit(_) => e.clone(),
+        Expr::Bin(a, op, c) => Expr::Bin(b(a), *op, b(c)),
+        Expr::Not(a) => Expr::Not(b(a)),
+        Expr::Neg(a) => Expr::Neg(b(a)),
+        Expr::IsNull { e, neg } => Expr::IsNull { e: b(e), neg: *neg },
+        Expr::InList { e, list, neg } => Expr::InList { e: b(e), list: v(list), neg: *neg },
+        Expr::Between { e, lo, hi, neg } => Expr::Between { e: b(e), lo: b(lo), hi: b(hi), neg: *neg },
+        Expr::Like { e, pat, neg } => Expr::Like { e: b(e), pat: pat.clone(), neg: *neg },
+        Expr::Case { operand, whens, els } => Expr::Case {
+            operand: operand.as_ref().map(|o| b(o)),
+            whens: whens.iter().map(|(w, t)| (inline_expr(w, env), inline_expr(t, env))).collect(),
+            els: els.as_ref().map(|o| b(o)),
+        },
+        Expr::Coalesce(xs) => Expr::Coalesce(v(xs)),
+        Expr::NullIf(a, c) => Expr::NullIf(b(a), b(c)),
+        Expr::IsDistinct { a, b: c, neg } => Expr::IsDistinct { a: b(a), b: b(c), neg: *neg },
+        Expr::Agg { f, arg, distinct } => Expr::Agg { f: *f, arg: arg.as_ref().map(|a| b(a)), distinct: *distinct },
+        Expr::Exists { q, neg } => Expr::Exists { q: Box::new(inline_query(q, env)), neg: *neg },
+        Expr::InSub { e, q, neg } => Expr::InSub { e: b(e), q: Box::new(inline_query(q, env)), neg: *neg },
+        Expr::Scalar(q) => Expr::Scalar(Box::new(inline_query(q, env))),
+        Expr::Win(_) | Expr::Grouping(_) => e.clone(),
+        Expr::Cast(x, t) => Expr::Cast(b(x), *t),
+    }
+}
+
+fn inline_from(f: &From, env: &Env) -> From {
+    match f {
+        From::Table { name, alias } => match env.iter().rev().find(|(n, _, _)| n.eq_ignore_ascii_case(name)) {
+            Some((_, body, cols)) => From::Derived { q: Box::new(body.clone()), alias: alias.clone().unwrap_or_else(|| name.clone()), cols: cols.clone() },
+            None => f.clone(),
+        },
+        From::Derived { q, alias, cols } => From::Derived { q: Box::new(inline_query(q, env)), alias: alias.clone(), cols: cols.clone() },
+        From::Join { l, r, kind, on } => From::Join {
+            l: Box::new(inline_from(l, env)),
+            r: Box::new(inline_from(r, env)),
+            kind: *kind,
+            on: on.as_ref().map(|e| inline_expr(e, env)),
+        },
+    }
+}
+
+fn inline_set(s: &SetExpr, env: &Env) -> SetExpr {
+    match s {
+        SetExpr::Select(sel) => SetExpr::Select(Box::new(Select {
+            distinct: sel.distinct,
+            items: sel
+                .items
+                .iter()
+                .map(|i| match i {
+                    Item::Expr(e, a) => Item::Expr(inline_expr(e, env), a.clone()),
+                    o => o.clone(),
+                })
+                .collect(),
+            from: sel.from.iter().map(|f| inline_from(f, env)).collect(),
+            where_: sel.where_.as_ref().map(|e| inline_expr(e, env)),
+            group: sel.group.clone(),
+            having: sel.having.as_ref().map(|e| inline_expr(e, env)),
+        })),
+        SetExpr::Op { op, all, l, r } => SetExpr::Op { op: *op, all: *all, l: Box::new(inline_set(l, env)), r: Box::new(inline_set(r, env)) },
+        SetExpr::Nested(q) => SetExpr::Nested(Box::new(inline_query(q, env))),
+        SetExpr::Values(_) => s.clone(),
+    }
+}
+
+/// The same query without any WITH clause.
+pub fn inline_query(q: &Query, env: &Env) -> Query {
+    let mut env: Env = env.clone();
+    for c in &q.with {
+        let body = inline_query(&c.q, &env);
+        env.push((c.name.clone(), body, c.cols.clone()));
+    }
+    Query {
+        with: vec![],
+        body: inline_set(&q.body, &env),
+        order_by: q.order_by.iter().map(|k| OrderKey { e: inline_expr(&k.e, &env), desc: k.desc, nulls_first: k.nulls_first }).collect(),
+        limit: q.limit,
+        offset: q.offset,
+    }
+}
+
+// ---------------------------------------------------------------------------
+// classification
+// ---------------------------------------------------------------------------
+
+/// the shared signatures except `shared-subplan-self-join`, which this property refines
+fn shared_sigs(c: &SqlCase, ev: &Ev, _msg: &str) -> Option<&'static str> {
+    crate::kf_sql::SIGS.iter().filter(|s| s.id != "shared-subplan-self-join").find(|s| (s.pred)(c, ev)).map(|s| s.id)
+}
+
+fn classify(c: &SqlCase, ev: &Ev, msg: &str) -> Option<&'static str> {
+    let f = scope_facts(&c.query, &c.tables);
+    // development switch: with the three fix patches applied, check that nothing
+    // is left in their classes (everything must then fall to other signatures)
+    // The three C28-specific defects below are FIXED in /repo (9d30f99, 25f4f8f):
+    // a failing case is first attributed to the still-open shared signatures;
+    // only if none matches do the fixed ids apply — and since they are listed
+    // `fixed`, the runner then reports a VIOLATION naming the regressed finding.
+    if let Some(id) = shared_sigs(c, ev, msg) {
+        return Some(id);
+    }
+    if f.global_map_misresolves {
+        return Some("cte-scope-global-map");
+    }
+    if f.same_name_two_live_definitions {
+        return Some("cte-cache-keyed-by-name");
+    }
+    if f.join_inputs_share_column_name {
+        return Some("join-inputs-share-column-name");
+    }
+    None
+}
+
+// ---------------------------------------------------------------------------
+// check
+// ---------------------------------------------------------------------------
+
+struct CteCheck;
+
+impl Check for CteCheck {
+    type Case = SqlCase;
+    fn name(&self) -> &'static str {
+        "cte_scoping_and_sharing"
+    }
+    fn rule(&self) -> &'static str {
+        "the engine answered and the statement defines some WITH name in two scopes, or references one CTE definition at least twice"
+    }
+    fn cases(&self, tier: Tier) -> u32 {
+        tier.pick(2500, 80_000)
+    }
+    fn max_shrink_iters(&self) -> u32 {
+        1500
+    }
+    fn strategy(&self, tier: Tier) -> BoxedStrategy<SqlCase> {
+        strategy(tier)
+    }
+    fn test(&self, c: &SqlCase, obs: &mut Obs) -> Verdict {
+        let sql = c.query.sql();
+        let f = scope_facts(&c.query, &c.tables);
+        if f.join_inputs_share_column_name {
+            obs.label("fact:join_inputs_share_column_name");
+        }
+        if f.name_defined_twice {
+            obs.label("fact:name_defined_twice");
+        }
+        if f.referenced_twice {
+            obs.label("fact:cte_referenced_twice");
+        }
+        if f.global_map_misresolves {
+            obs.label("fact:global_map_misresolves");
+        }
+        if f.same_name_two_live_definitions {
+            obs.label("fact:same_name_two_live_definitions");
+        }
+        obs.label(format!("cte_refs:{}", f.cte_refs.min(6)));
+        let out = judge_text(c, &sql, obs, 1e-9, &classify);
+        for e in &out.events {
+            obs.label(format!("ev:{}", e));
+        }
+        obs.nontrivial(out.got.is_some() && (f.name_defined_twice || f.referenced_twice));
+        if !matches!(out.verdict, Verdict::Pass) {
+            return out.verdict;
+        }
+        if let (Some(_), None) = (&out.reference, &out.got) {
+            // the engine refused the CTE text: an allowed outcome, but note when it
+            // accepts the WITH-free equivalent (the refusal is then about the CTEs)
+            let inl = inline_query(&c.query, &vec![]);
+            if run_sql(&mem_context(c), &inl.sql()).is_ok() {
+                obs.label("engine_error_but_inlined_text_answered");
+            }
+        }
+        let (Some(reference), Some(got)) = (&out.reference, &out.got) else { return out.verdict };
+
+        // second oracle: textual inlining
+        let inl = inline_query(&c.query, &vec![]);
+        match Db::new(&c.tables).run(&inl) {
+            Ok(r2) => {
+                if !multiset_eq(&r2.rows, &reference.rows, 1e-9) {
+                    return Verdict::Fail(format!(
+                        "HARNESS BUG: the reference gives the inlined text another answer\n sql: {}\n inlined: {}\n ref: {}\n ref(inlined): {}",
+                        sql,
+                        inl.sql(),
+                        show(&reference.rows),
+                        show(&r2.rows)
+                    ));
+                }
+            }
+            Err(e) => {
+                obs.label(format!("inline_ref_err:{}", crate::sqlcheck::short_err(&e)));
+                return Verdict::Pass;
+            }
+        }
+        let inl_sql = inl.sql();
+        let ctx = mem_context(c);
+        match run_sql(&ctx, &inl_sql) {
+            Err(e) => {
+                obs.label(format!("inlined_engine_error:{}", crate::sqlcheck::short_err(&e)));
+                Verdict::Pass
+            }
+            Ok(rows2) => {
+                obs.label("inlined_ok");
+                if same_rows(got, &rows2, 1e-9) {
+                    Verdict::Pass
+                } else {
+                    // the original text agreed with the reference, so the inlined
+                    // text (no CTE left) is what the engine gets wrong
+                    let msg = format!(
+                        "CTE statement and its textual inlining disagree (engine vs engine)\n sql: {}\n  -> {}\n inlined: {}\n  -> {}\n tables: {}",
+                        sql,
+                        show(got),
+                        inl_sql,
+                        show(&rows2),
+                        fmt_tables(&c.tables)
+                    );
+                    let ic = SqlCase { tables: c.tables.clone(), query: inl.clone(), cuts: c.cuts.clone(), features: c.features.clone() };
+                    let db = Db::new(&c.tables);
+                    let _ = db.run(&inl);
+                    let ev = db.events.borrow().clone();
+                    let fi = scope_facts(&inl, &c.tables);
+                    let cls = if fi.join_inputs_share_column_name { Some("join-inputs-share-column-name") } else { shared_sigs(&ic, &ev, &msg) };
+                    match cls {
+                        Some(id) => Verdict::Known { id: id.to_string(), msg },
+                        None => Verdict::Fail(msg),
+                    }
+                }
+            }
+        }
+    }
+}
 
 pub fn property() -> Property {
-    Property { id: "C28", level: "exploration", assumptions: &[], checks: vec![] }
+    Property {
+        id: "C28",
+        level: "exploration",
+        assumptions: &[
+            "the reference evaluator refsql resolves a WITH name to the nearest enclosing definition (lexical scoping, a CTE is not visible in its own body), as the SQL standard prescribes",
+            "replacing a non-recursive CTE reference by its definition as a derived table does not change the meaning of a statement (no volatile functions, no LIMIT without total order inside CTE bodies)",
+            "an engine error is an allowed outcome (the property only forbids wrong rows)",
+        ],
+        checks: vec![Box::new(CteCheck)],
+    }
 }
